@@ -1725,13 +1725,19 @@ class Authenticated(BaseClientHandler):
         # Phase 3: Re-acquire the source mailbox and expunge the moved
         # messages by their UIDs, regardless of the Deleted sequence.
         #
-        # We use a phony EXPUNGE command to go through the management
-        # task queue (same pattern copy() uses for the destination).
-        # We use the idling hack so EXPUNGE notifications are delivered
-        # immediately to this client.
+        # We use a phony command to go through the management task queue
+        # (same pattern copy() uses for the destination). We use the
+        # idling hack so EXPUNGE notifications are delivered immediately to
+        # this client.
         #
-        expunge_cmd = IMAPClientCommand("A001 EXPUNGE")
-        expunge_cmd.command = IMAPCommand.EXPUNGE
+        # NOTE: The phony command is a MOVE, not an EXPUNGE: an EXPUNGE only
+        #       has to run alone when there are `\Deleted` messages, because
+        #       otherwise it removes nothing. This removes messages whatever
+        #       their flags, so it must always wait for the commands that
+        #       were let in while we were writing to the destination.
+        #
+        expunge_cmd = IMAPClientCommand("A001 MOVE")
+        expunge_cmd.command = IMAPCommand.MOVE
         try:
             idling = self.idling
             self.idling = True
